@@ -135,8 +135,9 @@ ITEMS = [
          canaries=['C12:indent_indicator_counts_spaces_of_first_non_empty_line']),
     # ---- the decision "plain or quoted" (C12): raw text is written only when YAML reads it back as the same string
     _callee('fn is_plain_safe'), _callee('fn is_plain_value_safe'), _callee('fn has_unsafe_plain_edge'),
-    dict(src=SR, path='impl YamlSerializer/fn needs_double_quotes', trusted=True, props=[],
-         ensures=[('iterator_any_is_opaque', 'r == needs_dq(s@)')]),
+    dict(src=SR, path='impl YamlSerializer/fn needs_double_quotes', trusted=True, props=[], bounded_props=['C12', 'C01'], bounded_only=True,
+         bounded=dict(harness='bounded/char_predicates.rs', items=[('src/ser.rs', 'impl YamlSerializer/fn needs_double_quotes')], cfgs=['has_needs_dq']),
+         ensures=[('C12:single_quoted_style_is_refused_exactly_for_text_with_a_quote_a_backslash_or_a_control_character', 'r == needs_dq(s@)')]),
     dict(src=SR, path='impl YamlSerializer/fn write_plain_or_quoted', props=['C12', 'C01'],
          ensures=[('C12:a_key_is_written_raw_only_if_it_reads_back_as_itself_else_quoted', WRITES % 'false'),
                   ('frame', 'same_pos(final(self), old(self))')],
